@@ -84,6 +84,23 @@ def _programs2():
     return out
 
 
+def _programs3():
+    """MC_Resources!Programs3 (see _programs2)."""
+    import itertools
+    L3 = [["a"], ["b"], ["c"], ["c", "a"]]
+    shapes = ({"a": [], "b": ["a"], "c": ["b"]}, {"a": [], "b": ["a"], "c": ["b", "a"]},
+              {"a": ["c"], "b": ["a"], "c": ["b"]}, {"a": [], "b": ["c"], "c": ["b"]})
+    out = []
+    for deps in shapes:
+        for cache in itertools.product((True, False), repeat=3):
+            for asy in ({"a": True, "b": True, "c": True}, {"a": True, "b": False, "c": True}):
+                for i, j, k in itertools.combinations_with_replacement(range(4), 3):
+                    out.append({"deps": {n: list(v) for n, v in deps.items()}, "cache": dict(zip("abc", cache)),
+                                "asyncf": dict(asy), "params": {"p1": list(L3[i]), "p2": list(L3[j]), "p3": list(L3[k])}})
+    out.sort(key=repr)
+    return out
+
+
 def _explore(progs, procs):
     from harness.drivers import resources as drv
     traces = []      # (prog, events, same_run)
@@ -103,7 +120,7 @@ def _drive(chk, graph, procs, names, tag, progs, pre):
     traces, anomalies = pre if pre is not None else _explore(progs, procs)
     n_impl = len(traces)
     n_model = 0
-    for prog, sched in _graph_schedules(graph, chk.pick(400, 3000)):
+    for prog, sched in (_graph_schedules(graph, chk.pick(400, 3000)) if graph is not None else []):
         if prog not in progs:
             continue
         tr, an = drv.run_schedule(prog, procs, sched)
@@ -178,7 +195,7 @@ def run(chk):
     chk.exhaustive = True
     jobs = {"quick": (True, False), "design": (False, False)}
     if not chk.quick:
-        jobs.update({"thorough": (True, True), "thorough_design": (False, True)})
+        jobs.update({"thorough": (False, True), "thorough_design": (False, True)})
 
     def model(name):
         dump, big = jobs[name]
@@ -191,6 +208,13 @@ def run(chk):
         futs = [ex.submit(model, n) for n in jobs]
         progs2 = _programs2()
         pre2 = _explore(progs2, ["p1", "p2"])          # the real engine, while TLC checks the models
+        progs3 = pre3 = None
+        if not chk.quick:
+            all3 = _programs3()
+            progs3 = rng.sample(all3, 300)
+            progs3.sort(key=repr)
+            pre3 = _explore(progs3, ["p1", "p2", "p3"])
+            chk.exhaustive = False
         results = dict(f.result() for f in futs)
     graphs = {}
     for name, res in results.items():
@@ -219,12 +243,12 @@ def run(chk):
                 len(progs2), len(from_tlc)))
         t, n, m = _drive(chk, g, ["p1", "p2"], ["a", "b"], "2", progs2, pre2)
         total, nontriv, matched = total + t, nontriv + n, matched + m
-    if "thorough" in graphs:
-        g = graphs["thorough"]
-        progs3 = sorted((_prog_of(g.state(sid)) for sid in g.init), key=repr)
-        progs3 = rng.sample(progs3, min(len(progs3), 300))
-        chk.exhaustive = False
-        t, n, m = _drive(chk, g, ["p1", "p2", "p3"], ["a", "b", "c"], "3", progs3, None)
+    if progs3 is not None and results["thorough"].ok:
+        m = re.search(r"Finished computing initial states: (\d+) distinct", results["thorough"].stdout)
+        if not m or int(m.group(1)) != len(all3):
+            raise Machinery("the 3-resource programs driven on the real engine are not the ones TLC enumerated "
+                            "(%d here, TLC: %s)" % (len(all3), m.group(1) if m else "?"))
+        t, n, m = _drive(chk, None, ["p1", "p2", "p3"], ["a", "b", "c"], "3", progs3, pre3)
         total, nontriv, matched = total + t, nontriv + n, matched + m
     chk.add(evaluations=total, distinct_nontrivial=nontriv, traces_validated_against_impl=matched)
     chk.assumptions += [
